@@ -247,9 +247,14 @@ def interpolate (pts evals : List F) : List F :=
 
 /-- `VerifierKey::verify_multi_points`.  `sca.inverse().unwrap()` aborts when two points coincide,
 `linear_combination(..).unwrap()` when there is no evaluation vector.  The interpolant commitment
-is `msm(powers_of_g, i_poly)` — truncated to the key's G1 elements. -/
+is `msm(powers_of_g, i_poly)`; inputs the MSMs would truncate are refused first. -/
 def verifyMultiPoints (vk : VK F) (comms pts : List F) (evals : List (List F)) (π η : F) :
     Except Err Bool :=
+  -- more points than the key supports, or evaluation tables that do not match commitments and points:
+  -- `Err(VerificationError)`, i.e. a rejection (fix D20; the MSMs below truncate silently)
+  if pts.length ≥ vk.powersOfG2.length ∨ pts.length > vk.powersOfG.length ∨
+      comms.length ≠ evals.length ∨ evals.any (fun e => decide (e.length ≠ pts.length)) then .ok false
+  else
   let zeros := dot vk.powersOfG2 (vanishing pts)
   if (scaAll [] pts).any (fun s => decide (s = 0)) then .error .abort
   else
